@@ -49,7 +49,7 @@ class C20(Prop):
                     socket.create_connection(('127.0.0.1', port), timeout=0.2).close(); break
                 except Exception: time.sleep(0.1)
             n = 120 if tier == 'quick' else 1500
-            texts_ = [t for _, t in gens.mixed(rng, n)] + ['', '+--+', '<script>alert(1)</script>']
+            texts_ = [t for _, t in gens.mixed(rng, n)] + ['', '+--+', '<script>alert(1)</script>', '\ufffd', '+-----+\n| a\ufffdb |--> b\n+-----+\n', '\ufeffab', 'a\u2028b', '\U0010ffff', '\ud7ff\ue000']
             big = ['a' * 20000, ('+-' * 40 + '\n') * 200, '\n'.join('| ' * 30 for _ in range(300))]
             bad = [b'\xff', b'+\xc0\xaf', b'\xed\xa0\x80', b'ab\xe4\xb8', b'\xf5\x80\x80\x80', b'\xf0\x8f\xbf\xbf', b'\x80', bytes(rng.randrange(256) for _ in range(40))]
             for i in range(n):
